@@ -160,6 +160,18 @@ func (r *Run) OutcomeHash(k uint64, nontrivial bool) {
 	r.mu.Unlock()
 }
 
+// ViolationSignatures lists the signatures recorded so far (sorted).
+func (r *Run) ViolationSignatures() []string {
+	r.mu.Lock()
+	defer r.mu.Unlock()
+	var out []string
+	for s := range r.viol {
+		out = append(out, s)
+	}
+	sort.Strings(out)
+	return out
+}
+
 func (r *Run) Distinct() int {
 	r.mu.Lock()
 	defer r.mu.Unlock()
